@@ -1168,3 +1168,40 @@ silent('c19-format-style', 'C19',
        [(SH, "            print(\"passed: %s\" % key)", "            print(\"passed: {}\".format(key))")])
 silent('c19-exception-prints', 'C19',
        [(SH, "        print(e)\n        print(\"exception: %s\" % rule)", "        print(\"exception: %s\" % rule)")])
+
+# ---------------------------------------------------- refactor robustness
+silent('refactor-load-rules-wrapper', ['C09', 'C10', 'C11', 'C12', 'C03'],
+       [(POL, "    def load_rules(self, force_reload=False):\n        \"\"\"Loads policy_path's rules.",
+         "    def load_rules(self, force_reload=False):\n        return self._load_rules(force_reload)\n\n    def _load_rules(self, force_reload=False):\n        \"\"\"Loads policy_path's rules.")])
+silent('refactor-extract-default-merge', ['C09', 'C10', 'C11', 'C12'],
+       [(POL, """            for default in self.registered_rules.values():
+                if default.deprecated_for_removal:
+                    self._emit_deprecated_for_removal_warning(default)
+
+                if default.name in self.rules:
+                    continue
+
+                check = default.check
+                if default.deprecated_rule:
+                    check = self._handle_deprecated_rule(default)
+
+                self.rules[default.name] = check
+""", """            self._apply_registered_defaults()
+"""), (POL, """    def check_rules(self, raise_on_violation=False):
+        \"\"\"Look for rule definitions that are obviously incorrect.\"\"\"""",
+       """    def _apply_registered_defaults(self):
+        for default in self.registered_rules.values():
+            if default.deprecated_for_removal:
+                self._emit_deprecated_for_removal_warning(default)
+
+            if default.name in self.rules:
+                continue
+
+            check = default.check
+            if default.deprecated_rule:
+                check = self._handle_deprecated_rule(default)
+
+            self.rules[default.name] = check
+
+    def check_rules(self, raise_on_violation=False):
+        \"\"\"Look for rule definitions that are obviously incorrect.\"\"\"""")])
